@@ -31,4 +31,10 @@ def check_all(ctx, lib, rule, only=None):
             n += 1
         C14.check_fold(ctx, lib, rule, "crate::operator::%s::%s::from_conjunctions" % (mod, ty), new, inner=inner, unit=unit)
         n += 1
+    # from_iter (forward fold; labeling of compound fields and `for` bodies are built with it): every item, from `succeed`
+    if not rule.startswith("C12"):
+        import C12
+        import C15
+
+        C12.check_from_iter(C15._Prefixed(ctx, rule[:3]), lib)
     return n
